@@ -15,7 +15,7 @@ import copy
 import json
 import random
 
-from harness import core, meshgeom as mg, runfamily as rf
+from harness import core, meshgeom as mg
 
 LEVEL = "model_checking"
 
@@ -101,16 +101,18 @@ def run(ctx):
                     name="MeshGeom[cells without boundary completion must not tile]", expect_violation="CanaryInteriorCellsTile", count=False)
     # ---- spec -> code and natural meshes, in one pool
     per = 40
-    jobs = [("call", dict(module="harness.meshgeom", func="exact_traces", args=dict(instances=instances[k:k + per])))
-            for k in range(0, len(instances), per)]
+    jobs = [("exact_traces", dict(instances=instances[k:k + per])) for k in range(0, len(instances), per)]
     gens = gen_matrix(ctx)
-    jobs += [("call", dict(module="harness.meshgeom", func="gen_trace", args=g)) for g in gens]
-    res = rf.replay_all(ctx, jobs)
-    exact, gen, refused = [], [], []
+    jobs += [("gen_trace", g) for g in gens]
+    res = mg.run_batches(ctx, jobs, batch=6 if ctx.quick else 12)      # separate interpreters: a crash is an observation
+    exact, gen, refused, invalid, crashed = [], [], [], [], []
     for x in res:
         for t in (x if isinstance(x, list) else [x]):
-            (exact if t["kind"] == "exact" else gen if t["kind"] == "gen" else refused).append(t)
+            {"exact": exact, "gen": gen, "refused": refused, "invalid": invalid, "crashed": crashed}[t["kind"]].append(t)
     ctx.cov["meshes_generated"] = len(gen)
+    ctx.cov["descriptions_skipped_as_ill_formed"] = len(invalid)
+    ctx.cov["mesh_generator_crashes"] = [t["key"] for t in crashed][:5]
+    gens = [g for g in gens if json.dumps(g, sort_keys=True) not in {t["key"] for t in invalid}]
     ctx.cov["meshes_refused_by_the_code"] = [{"exc": t["exc"], "msg": t["msg"], "input": json.loads(t["key"])} for t in refused][:10]
     ctx.cov["meshes_refused_count"] = len(refused)
     if len(refused) * 2 > len(gens):
